@@ -226,6 +226,10 @@ func resolve(v ssa.Value) ssa.Value {
 						v = st[0].Val
 						continue
 					}
+					if rs, ok := loadStores(x); ok && len(rs) == 1 {
+						v = rs[0].Val
+						continue
+					}
 				case *ssa.FieldAddr:
 					// a field of a local struct that bundles values (staged := stagedFile{file: tmp, name: tmp.Name()}):
 					// written once in the whole package, in this function, before the read
@@ -241,6 +245,10 @@ func resolve(v ssa.Value) ssa.Value {
 							st := storesTo(al)
 							if len(st) == 1 {
 								v = st[0].Val
+								continue
+							}
+							if rs, ok := loadStores(x); ok && len(rs) == 1 {
+								v = rs[0].Val
 								continue
 							}
 						}
@@ -1210,6 +1218,114 @@ func threaded(L *Loaded, v ssa.Value) ([]ssa.Value, bool) {
 			}
 		}
 		return out, len(out) > 0
+	}
+	return nil, false
+}
+
+// loadStores: the stores a load of a local can see, more precisely than "every store to it".
+//   - a load in the function that owns the local, when no closure writes the local: the stores that reach the load
+//     (latest store in the block, else the union over the predecessors);
+//   - a load in a closure that is not deferred: the parent's stores except return spills (`*r = v; t = *r; return t`, the
+//     way go/ssa returns through an address-taken named result) and self-assignments (`*r = *r`) - those happen after
+//     every call the closure can run in.
+//
+// ok is false when the cheaper reading "all stores" is all that can be said.
+func loadStores(ld *ssa.UnOp) ([]*ssa.Store, bool) {
+	if ld.Op != token.MUL {
+		return nil, false
+	}
+	switch a := ld.X.(type) {
+	case *ssa.Alloc:
+		all := storesTo(a)
+		for _, st := range all {
+			if st.Parent() != a.Parent() {
+				return nil, false // written by a closure: may change at any call
+			}
+		}
+		if ld.Parent() != a.Parent() {
+			return nil, false
+		}
+		var out []*ssa.Store
+		seen := map[*ssa.BasicBlock]bool{}
+		var back func(b *ssa.BasicBlock, from int)
+		back = func(b *ssa.BasicBlock, from int) {
+			for i := from; i >= 0; i-- {
+				if st, ok := b.Instrs[i].(*ssa.Store); ok && st.Addr == ssa.Value(a) {
+					out = append(out, st)
+					return
+				}
+			}
+			for _, p := range b.Preds {
+				if !seen[p] {
+					seen[p] = true
+					back(p, len(p.Instrs)-1)
+				}
+			}
+		}
+		back(ld.Block(), instrIndex(ld)-1)
+		if len(out) == 0 {
+			return nil, false
+		}
+		return out, true
+	case *ssa.FreeVar:
+		cl := a.Parent()
+		b := freeVarBinding(a)
+		al, isAl := b.(*ssa.Alloc)
+		if !isAl || cl.Parent() == nil {
+			return nil, false
+		}
+		// the closure must not be deferred or started as a goroutine (it then runs after / beside the rest of the parent)
+		for _, blk := range cl.Parent().Blocks {
+			for _, in := range blk.Instrs {
+				switch x := in.(type) {
+				case *ssa.Defer:
+					if mc, ok := x.Call.Value.(*ssa.MakeClosure); ok && mc.Fn == ssa.Value(cl) {
+						return nil, false
+					}
+				case *ssa.Go:
+					if mc, ok := x.Call.Value.(*ssa.MakeClosure); ok && mc.Fn == ssa.Value(cl) {
+						return nil, false
+					}
+				}
+			}
+		}
+		var out []*ssa.Store
+		for _, st := range storesTo(al) {
+			if st.Parent() != al.Parent() {
+				return nil, false
+			}
+			if u, ok := st.Val.(*ssa.UnOp); ok && u.Op == token.MUL && u.X == ssa.Value(al) {
+				continue // self-assignment
+			}
+			i := instrIndex(st)
+			blk := st.Block()
+			if i+2 < len(blk.Instrs) {
+				if l2, ok := blk.Instrs[i+1].(*ssa.UnOp); ok && l2.Op == token.MUL && l2.X == ssa.Value(al) {
+					if _, isRet := blk.Instrs[len(blk.Instrs)-1].(*ssa.Return); isRet {
+						onlySpills := true
+						for _, in := range blk.Instrs[i+1 : len(blk.Instrs)-1] {
+							switch y := in.(type) {
+							case *ssa.UnOp:
+								if y.Op != token.MUL {
+									onlySpills = false
+								}
+							case *ssa.Store:
+							default:
+								onlySpills = false
+							}
+						}
+						if onlySpills {
+							continue // return spill
+						}
+					}
+				}
+			}
+			out = append(out, st)
+		}
+		if len(out) == 0 {
+			return nil, false
+		}
+		return out, true
 	}
 	return nil, false
 }
